@@ -16,11 +16,22 @@ import (
 	"verif/mc/ref"
 )
 
-const (
-	M      = 4
-	P      = 2
-	Cycles = 3
+// configuration of the searched simulator (the default one, and the second one
+// selected by SetConfig; a witness of the second carries a "cfg(M,P,C)" prefix)
+var (
+	M      uint64 = 4
+	P      uint64 = 2
+	Cycles uint64 = 3
 )
+
+func SetConfig(m, p, c uint64) { M, P, Cycles = m, p, c }
+
+func cfgPrefix() string {
+	if M == 4 && P == 2 && Cycles == 3 {
+		return ""
+	}
+	return fmt.Sprintf("cfg(%d,%d,%d) ", M, P, Cycles)
+}
 
 // Op is one API call of the alphabet.
 type Op struct {
@@ -82,7 +93,7 @@ func kindData(k int) *g.WarriorData {
 	case 1: // dies at once
 		return &g.WarriorData{Name: "dat", Code: []g.Instruction{{Op: g.DAT, OpMode: g.F, AMode: D, A: 0, BMode: D, B: 0}}, Start: 0}
 	default: // spl 0 / jmp -1, entry point 1
-		return &g.WarriorData{Name: "ring", Code: []g.Instruction{{Op: g.SPL, OpMode: g.B, AMode: D, A: 0, BMode: D, B: 0}, {Op: g.JMP, OpMode: g.B, AMode: D, A: M - 1, BMode: D, B: 0}}, Start: 1}
+		return &g.WarriorData{Name: "ring", Code: []g.Instruction{{Op: g.SPL, OpMode: g.B, AMode: D, A: 0, BMode: D, B: 0}, {Op: g.JMP, OpMode: g.B, AMode: D, A: g.Address(M - 1), BMode: D, B: 0}}, Start: 1}
 	}
 }
 
@@ -93,7 +104,7 @@ type impl struct {
 }
 
 func newImpl() (*impl, error) {
-	cfg := g.SimulatorConfig{Mode: g.ICWS94, CoreSize: M, Processes: P, Cycles: Cycles, ReadLimit: M, WriteLimit: M, Length: M, Distance: 0}
+	cfg := g.SimulatorConfig{Mode: g.ICWS94, CoreSize: g.Address(M), Processes: g.Address(P), Cycles: g.Address(Cycles), ReadLimit: g.Address(M), WriteLimit: g.Address(M), Length: g.Address(M), Distance: 0}
 	sim, err := g.NewSimulator(cfg)
 	if err != nil {
 		return nil, err
@@ -222,7 +233,7 @@ func (im *impl) observe() (obs string, raw string) {
 	sb.WriteString(q("living", func() string { return fmt.Sprint(im.sim.WarriorLivingCount()) }) + " ")
 	sb.WriteString(q("core", func() string {
 		c := make([]g.Instruction, M)
-		for a := 0; a < M; a++ {
+		for a := 0; a < int(M); a++ {
 			c[a] = im.sim.GetMem(g.Address(a))
 		}
 		return hx.CoreStr(c)
@@ -321,7 +332,7 @@ type Engine struct {
 
 func (e *Engine) fail(kind string, hist []Op, detail string) {
 	if e.Rep.Hit("C13", kind) {
-		e.Rep.Add("C13", kind, OpsStr(hist), detail)
+		e.Rep.Add("C13", kind, cfgPrefix()+OpsStr(hist), detail)
 	}
 }
 
@@ -470,20 +481,35 @@ func (e *Engine) Run(tier string) {
 	for i := 0; i < e.MaxW; i++ {
 		n *= 3
 	}
-	for c := 0; c < n; c++ {
-		if !e.Sh.Mine(c) {
-			continue
+	// the default configuration, then a second one with a larger core, a
+	// process limit of 3 and more cycles (longer histories before the battle ends)
+	cfgs := [][3]uint64{{4, 2, 3}, {6, 3, 5}}
+	var bounds []string
+	for ci, cf := range cfgs {
+		SetConfig(cf[0], cf[1], cf[2])
+		for c := 0; c < n; c++ {
+			if !e.Sh.Mine(ci*n + c) {
+				continue
+			}
+			cl := make([]int, e.MaxW)
+			x := c
+			for i := range cl {
+				cl[i] = x % 3
+				x /= 3
+			}
+			if ci > 0 && e.MaxW > 2 && cl[2] != 0 {
+				continue // second configuration: the third warrior is always the imp
+			}
+			e.class = cl
+			e.search(tier)
 		}
-		cl := make([]int, e.MaxW)
-		x := c
-		for i := range cl {
-			cl[i] = x % 3
-			x /= 3
+		if e.Rep.Bound != "" {
+			bounds = append(bounds, e.Rep.Bound)
+			e.Rep.Bound = ""
 		}
-		e.class = cl
-		e.search(tier)
 	}
-	e.Rep.Bound += fmt.Sprintf("; partitioned into %d classes by the kinds of the warriors added (each class searched to closure separately; states shared between classes are counted once per class)", n)
+	SetConfig(4, 2, 3)
+	e.Rep.Bound = strings.Join(bounds, " // ") + fmt.Sprintf("; each configuration partitioned into %d classes by the kinds of the warriors added (each class searched to closure separately; states shared between classes are counted once per class; under the second configuration a third warrior is always the imp)", n)
 }
 
 func (e *Engine) search(tier string) {
@@ -560,9 +586,6 @@ func (e *Engine) search(tier string) {
 		rep.Note(fmt.Sprintf("depth cap %d reached with %d states on the frontier", e.MaxDepth, len(frontier)))
 	} else if rep.Exhaustive {
 		rep.Count("c13:classes-searched-to-closure")
-		if int64(depth) > rep.Counters["c13:max-closure-depth"] {
-			rep.Counters["c13:max-closure-depth"] = int64(depth)
-		}
 	}
 	rep.Bound = fmt.Sprintf("M=%d P=%d cycles=%d, <=%d warriors of 3 kinds (imp, DAT, SPL/JMP ring with entry point 1); calls: AddWarrior, SpawnWarrior(i in -1..n+1, off in {0,M-1,M,2M+3}), RunCycle, Run, Reset; query battery (GetWarrior -1..n+1, GetMem incl. >= M, Alive/Queue/NextPC/Length, counters) twice in every state; reset-vs-fresh differential with tails of length <=%d; depth cap %d", M, P, Cycles, e.MaxW, resetDepth, e.MaxDepth)
 	rep.Sample("add(0) add(2) spawn(0,0) spawn(1,11) cycle reset spawn(1,3) run")
@@ -570,6 +593,14 @@ func (e *Engine) search(tier string) {
 
 // Replay re-executes one history with all checks.
 func (e *Engine) Replay(wit string) error {
+	if strings.HasPrefix(wit, "cfg(") {
+		var m, p, c uint64
+		if _, err := fmt.Sscanf(wit, "cfg(%d,%d,%d)", &m, &p, &c); err != nil {
+			return err
+		}
+		SetConfig(m, p, c)
+		wit = wit[strings.Index(wit, ")")+1:]
+	}
 	ops, err := ParseOps(wit)
 	if err != nil {
 		return err
